@@ -90,6 +90,12 @@ pub fn result_alphabet() -> Vec<Option<Ty>> {
         Some(rec17()),
         Some(Ty::Result(Some(bx(Ty::String)), Some(bx(Ty::U8)))),
         Some(Ty::Option(bx(Ty::U64))),
+        // results whose flattening sits on both sides of the 4 and 16 limits (task.return
+        // flattens the result as *parameters*: limit 16, never the async-lower limit 4)
+        Some(Ty::Tuple(vec![Ty::U32; 4])),
+        Some(Ty::Tuple(vec![Ty::U32; 5])),
+        Some(Ty::Record(vec![Ty::String, Ty::String, Ty::U32])),
+        Some(Ty::Tuple(vec![Ty::U32; 16])),
     ]
 }
 
